@@ -40,6 +40,10 @@ def make_case(i, rng, tier):
     return {"decl": decl, "inputs": inputs}
 
 
+# options about defaults / requiredness that are documented as usable per call
+RUNTIME_KEYS = ("defer_default", "no_default", "force_default", "ignore_required")
+
+
 def convert(tname, v):
     from utype import Rule, type_transform
 
@@ -56,6 +60,10 @@ def run_case(case, ctx):
         try:
             for s in (None, True, False):
                 built[s] = D.build(decl, {} if s is None else {"data_first_search": s})
+            rt_keys = [k for k in RUNTIME_KEYS if k in decl["options"]]
+            if rt_keys and decl["base"] != "function":
+                # the same rules given at RUNTIME: the class is declared without them, __from__ receives the full options
+                built["rt"] = D.build(dict(decl, options={k: v for k, v in decl["options"].items() if k not in RUNTIME_KEYS}))
         except Exception as e:
             ctx.count("declaration_rejected:" + type(e).__name__)
             return
@@ -67,13 +75,15 @@ def run_case(case, ctx):
             if m[0] == "skip":
                 ctx.skip("model:" + m[1][:50])
                 continue
-            for s in (None, True, False):
+            for s in (None, True, False, "rt"):
+                if s not in built:
+                    continue
                 T = built[s]
 
                 def thunk():
                     if decl["base"] == "function":
                         return (None, T(**data), None)
-                    inst = T.__from__(dict(data))
+                    inst = T.__from__(dict(data), options=D.make_options(decl["options"])) if s == "rt" else T.__from__(dict(data))
                     kv, av = views(inst, decl)
                     extras = None
                     if decl["base"] == "DataClass":
@@ -86,7 +96,7 @@ def run_case(case, ctx):
                 if out.kind == "escape":
                     ctx.count("escape_left_to_C04")
                     continue
-                strat = {None: "auto", True: "data-first", False: "field-first"}[s]
+                strat = {None: "auto", True: "data-first", False: "field-first", "rt": "auto, options given to __from__ at runtime"}[s]
                 wit = {"declaration": D.describe(decl), "input": short(data, 300), "strategy": strat, "model": short(m, 300), "observed": repr(out)}
                 sig = (shp, tuple(sorted((k, str(v)) for k, v in plan.items())), s, m[0], out.ok)
                 plain = not decl["options"] and all(not D._needs_field_obj(f) for f in decl["fields"]) and all(p == "absent" or p[1][0] in fnames for p in plan.values())
